@@ -412,6 +412,10 @@ static inline _Bool L0_lexicographical_compare(const E *f1, const E *l1, const E
   return nondet_bool();
 }
 
+/* the comparison operators of the containers are defined by operator== / operator< of the elements ([container.requirements]):
+ * a comparison that goes through another predicate object is a different relation */
+#define L0_equal_pred(f1, l1, f2, pred) (L0_assert(0, "C01 C03 C04: operator== compares the elements with their own operator==, not with another predicate"), nondet_bool())
+#define L0_lexicographical_compare_pred(f1, l1, f2, l2, pred) (L0_assert(0, "C01 C03 C04: operator< compares the elements with their own operator<, not with another predicate"), nondet_bool())
 /* ------------------------------------------------------------------------------------------------ bytes            */
 /* memmove / memcpy on element storage: only for relocatable categories; it is a relocation */
 static inline void *L0_memmove__pE_pE_u64(E *d, const E *s, uint64_t bytes) {
